@@ -9,7 +9,11 @@ LasData built from ONE header object and used interleaved, refused and torn writ
 block-wise copies change behaviour (exact multiples of 2**16, 2**17 +- 1, one chunk beyond 2**20 points) selected as strided / reversed views (not
 contiguous), by index arrays and masks, stored through LasData[ix].write (stream and path), a chunked writer (stream and path) and an appender,
 judged by the file length equation and the exact statistics recomputed from the bytes; LasData(header with stale counters, points) then sliced /
-masked / updated."""
+masked / updated. Round 6: RICH sessions of writers and appenders (lasio.rs_session; the appender ones are C06's): chunks SELECTED in every way (slice, stepped / negative slice, mask as
+ndarray or list, index ndarray, list, tuple, int) from every record class, the source's PointFormat object changed in place between chunks, other files with the same
+kinds of known VLRs read / written meanwhile, the writer's / appender's OWN header edited between chunks (VLR added / removed / grown, extra bytes, strings), every way
+of ending (close twice, close inside the with-block, chunks after close; closefd False / True): whenever the first close succeeds the file must satisfy every header
+equality, recomputed from its bytes, and hold exactly the accepted chunks."""
 import io
 
 import numpy as np
@@ -24,7 +28,10 @@ ASSUMPTIONS = ["positive finite scales: the generic theorems assume ap_ok of the
                "small sizes and at the sizes where block-wise copies change behaviour (exact multiples of 2**16, 2**17 +- 1, a single chunk beyond 2**20 points)",
                "I/O faults judged here: a write_points / append_points whose low-level write fails with OSError BEFORE storing any byte, followed by "
                "anything (with-block exit, more chunks, the same chunk again, close): the refused chunk counts as not accepted and the file must be the "
-               "file of the accepted chunks. Torn writes (bytes stored) are C19's (reading never yields other records); C03 does not range over them"]
+               "file of the accepted chunks. Torn writes (bytes stored) are C19's (reading never yields other records); C03 does not range over them",
+               "round 6: a session produces a file when its FIRST close returns normally (a writer / appender whose own header was resized while open refuses at close: "
+               "no file is produced, C19 judges what is left); whatever follows the first close (a second close, chunks that are accepted or refused) the file must "
+               "keep satisfying every header equality and hold exactly the accepted chunks"]
 
 _WS = None
 _WS_ERRORS = []
@@ -64,11 +71,57 @@ def ensembles(ctx):
     return _ENS
 
 
+_INMEM_SEL = []
+
+
+def inmem_selection_cases(ctx):
+    """round 6: a LasData indexed in EVERY way the API offers (lasio.RS_SELECTIONS: slice, stepped / negative slice, mask as ndarray or python list,
+    index ndarray - also negative -, python list - also with repetitions, empty -, tuple, python int - also negative), once and twice in a row
+    (las[a][b]); the object built by assignment or by LasData(header with stale counters, points). Returns (label, LasData) like inmem_cases and
+    records in _INMEM_SEL what the selection must hold (numpy on a private copy of the array) and the parent's state before / after"""
+    import laspy
+    rng = ctx.rng
+    out = []
+    kinds = sorted(set(lasio.RS_SELECTIONS))
+    for it in range(ctx.n(90, 900)):
+        h = lasio.rand_header(rng)
+        if rng.random() < 0.2:
+            lasio.add_extra_dims(rng, h, 1)
+        n = rng.choice([2, 3, 9, 33])
+        pts = lasio.sweep_points(rng, h, n, start=rng.randrange(16))
+        if rng.random() < 0.5:
+            las = laspy.LasData(header=h, points=pts)
+        else:
+            las = laspy.LasData(header=h)
+            las.points = pts
+        kind = kinds[it % len(kinds)]
+        ix, npix = lasio.rs_selection(rng, n, kind)
+        snap = las.points.array.copy()
+        parent_before = (lasio.fingerprint(las.header), int(las.header.point_count), lasio.rec_bytes(las.points))
+        label = f"las[{kind}]"
+        try:
+            sub = las[ix]
+            want = snap[npix]
+            if rng.random() < 0.3 and len(want) >= 2 and type(sub).__name__ == "LasData":
+                k2 = rng.choice(kinds)
+                ix2, npix2 = lasio.rs_selection(rng, len(want), k2)
+                sub = sub[ix2]
+                want = want[npix2]
+                label = f"las[{kind}][{k2}]"
+        except Exception as ex:
+            _INMEM_SEL.append((label, lasio.rs_label(ix), None, None, f"{type(ex).__name__}: {ex}", n))
+            continue
+        parent_after = (lasio.fingerprint(las.header), int(las.header.point_count), lasio.rec_bytes(las.points))
+        _INMEM_SEL.append((label, lasio.rs_label(ix), sub, np.ascontiguousarray(want).tobytes(), None if parent_after == parent_before else "parent changed", n))
+        out.append((label, sub))
+    return out
+
+
 def inmem_cases(ctx):
     """(label, LasData) after in-memory operations"""
     import laspy
     rng = ctx.rng
-    out = []
+    out = inmem_selection_cases(ctx)
     for _ in range(ctx.n(120, 1200)):
         h = lasio.rand_header(rng)
         n = rng.choice([0, 1, 2, 9, 33])
@@ -141,6 +194,57 @@ def header_stats_problems(h, rec):
 _INMEM = None
 
 
+_RICHW = None
+
+
+def rich_writer_sessions(ctx):
+    global _RICHW
+    if _RICHW is None:
+        _RICHW = []
+        for i in range(ctx.n(220, 2200)):
+            try:
+                _RICHW.append(lasio.rs_session(ctx.rng, "writer", ctx.thorough()))
+            except Exception as ex:
+                import traceback
+                _RICHW.append({"error": f"{type(ex).__name__}: {ex} | " + traceback.format_exc()[-600:], "desc": {"generator": "rich writer session"}})
+    return _RICHW
+
+
+def rich_results(ctx):
+    """round 6: the header equalities on the files of rich writer and appender sessions: [(kind, description, why)]"""
+    out = []
+    for s in rich_writer_sessions(ctx) + c06.rich_sessions(ctx):
+        if "error" in s:
+            out.append(("rich session could not be run", s["desc"], s["error"]))
+            continue
+        d = s["desc"]
+        tag = lasio.rs_tag(s)
+        ctx.case(("rich", s["kind"], repr(d["ops"]), s["final"]), nontrivial=any(o["outcome"] == "ok" and o["n"] for o in s["outs"]), sample={"session": d})
+        ctx.count("rich:" + tag.split(":")[0])
+        for o in s["outs"]:
+            ctx.count("rich-chunk:" + s["kind"] + ":" + o["label"].split("[")[0] + ":" + ("empty" if o["n"] == 0 else o["expected"]) + ":" + o["outcome"])
+        for k, why in lasio.rs_outcome_problems(s):
+            out.append((tag + k, d, why))
+        if not s["closes"] or s["closes"][0] != "ok":
+            if not s["edited"]:
+                out.append((tag + "close raised", d, f"closing calls: {s['closes']}"))
+            continue       # the session did not produce a file (its own header was edited: refusing at close is allowed)
+        if any(a is None for a in s["accepted"]):
+            continue
+        fin = s["final"]
+        probs = lasio.raw_stats_problems(fin)
+        try:
+            if not probs and not s["rescaled"] and lasio.raw_records(fin) != s["accepted_bytes"]:
+                probs = [f"records: the file holds {len(lasio.raw_records(fin))} bytes of records, the accepted chunks are {len(s['accepted_bytes'])} bytes"]
+        except ValueError as ex:
+            probs = [f"header: {ex}"]
+        if not probs:
+            probs = ["coordinates: " + p for p in lasio.rs_world_problems(s)]
+        if probs:
+            out.append((tag + probs[0].split(" ")[0], d, "; ".join(probs[:3])))
+    return out
+
+
 def correspond(ctx):
     global _INMEM
     ctx.extra["rule"] = ("files from random writer sessions (opened through the class or laspy.open with every optional parameter; 40% with return numbers "
@@ -149,7 +253,10 @@ def correspond(ctx):
                          "laspy.read (every header field, VLRs, EVLRs, records); each writer of an ensemble vs the model's wrun on its own operations; in-memory "
                          "LasData after points assignment, slice / mask / index list, update_header() - also on objects built by LasData(header with stale counters, points) -: "
                          "header statistics vs the model's stats_of. Search adds large selections (lengths 2**16 k, 2**17 +- 1, > 2**20; strided / reversed / fancy). non-trivial = "
-                         "at least one point; distinct by file bytes / record bytes")
+                         "at least one point; distinct by file bytes / record bytes. Round 6: rich writer / appender sessions - chunks selected from a source cloud by slice / "
+                         "stepped / negative slice / mask (ndarray, list) / index ndarray / list / tuple / int from plain and scale-aware records, LasData.points[..], "
+                         "LasData[..].points; the source's PointFormat object changed in place between chunks; other files with known VLRs read / written meanwhile; the "
+                         "writer's / appender's own header edited between chunks; close / close twice / close inside with / chunks after close, closefd False / True")
     import laspy
     dis = []
     files = []
@@ -163,6 +270,9 @@ def correspond(ctx):
     for a in c06.sessions_for(ctx):
         if a.get("final") is not None:
             files.append(("append", a["final"]))
+    for s in rich_writer_sessions(ctx) + c06.rich_sessions(ctx):
+        if "error" not in s and s["closes"] and s["closes"][0] == "ok" and len(s["final"]) < 60000:
+            files.append(("rich-" + s["kind"], s["final"]))
     ens_cmds, ens_meta = [], []
     for e in ensembles(ctx):
         if e["a"]["error"]:
@@ -174,6 +284,16 @@ def correspond(ctx):
                 ops = [(op[0], op[1], True) if op[0] == "P" else op for i, op in e["ops"] if i == j] + [("C",)]
                 ens_cmds.append(lasio.ws_cmd({"header": e["header0"], "ops": ops}))
                 ens_meta.append((e, j))
+    # round 6: the rich WRITER sessions that are within the model (nothing rescaled, own header untouched): every call in order - chunks selected in
+    # every way, the EVLRs, close, close again, chunks after close - through the model's wrun: outcome of every chunk call and the bytes of the file
+    rw = [(s, lasio.rs_wrun_cmd(s)) for s in rich_writer_sessions(ctx)]
+    rw = [(s, c) for s, c in rw if c]
+    for (s, _), mo in zip(rw, common.run_model([c for _, c in rw])):
+        ctx.traces += 1
+        ctx.count("wrun-rich:" + lasio.rs_tag(s).split(":")[0])
+        why = lasio.rs_wrun_problem(s, mo)
+        if why:
+            dis.append({"kind": "rich writer session (calls in order, closes included)", "input": s["desc"], "model": mo[:80], "impl": why})
     outs = common.run_model(["read_file " + common.hexb(raw) for _, raw in files] + ens_cmds)
     for (src, raw), mo in zip(files, outs):
         ctx.traces += 1
@@ -561,6 +681,10 @@ def search(ctx, seeds):
             if probs:
                 add("appended file: " + probs[0].split(" ")[0], a["desc"], "; ".join(probs[:3]))
     _guarded(add, 'append sessions', sec_append_sessions)
+    def sec_rich_sessions():
+        for kind, d, why in rich_results(ctx):
+            add(kind, d, why)
+    _guarded(add, 'selections / format objects / other files / own header edited / endings', sec_rich_sessions)
     def sec_version_format_sweep():
         for kind, d, why in pair_sweep(ctx):
             add(kind, d, why)
@@ -633,8 +757,23 @@ def search(ctx, seeds):
             probs = header_stats_problems(las.header, las.points)
             if probs:
                 add("in-memory header after " + label.split("[")[0] + ": " + probs[0].split(" ")[0], {"op": label, "points": len(las.points), "version": str(las.header.version), "format": las.header.point_format.id}, "; ".join(probs[:3]))
+        # round 6: every index expression; the selection must hold exactly the records numpy selects from the same array, the parent must stay as it was
+        for label, ixs, sub, want, note, n in _INMEM_SEL:
+            ctx.count("inmem-selection:" + label)
+            d = {"op": label, "index": ixs, "points": n}
+            if sub is None:
+                # (a TUPLE is a multi-dimensional index for numpy: a LasData built on a plain PackedPointRecord refuses it with IndexError, one whose
+                # points were assigned - a ScaleAwarePointRecord - reads it as a list of indices; a refusal is not judged, every other kind must work)
+                if not (label.endswith("[tuple]") and note.startswith("IndexError")):
+                    add("indexing a LasData raised (" + label.split("]")[0] + "])", d, note)
+            elif type(sub).__name__ == "LasData":
+                if lasio.rec_bytes(sub.points) != want:
+                    add("indexing a LasData does not select the indexed points (" + label.split("]")[0] + "])", d,
+                        f"{len(sub.points)} points in the selection, numpy selects {len(want) // max(sub.header.point_format.size, 1)} from the same array (or other ones)")
+                if note:
+                    add("indexing a LasData changed the indexed object", d, "header (fields, statistics, VLRs, point format), point_count or records of the parent differ after las[...]")
     _guarded(add, 'in-memory headers', sec_in_memory_headers)
-    return failing[:8]
+    return failing[:10]
 
 
 def replay(ctx, data):
